@@ -28,11 +28,19 @@ impl AssignAddTransform {
             }
 
             AssignTarget::Simple(left_expr) => {
+                // `a += 1 + 2` is `a + (1 + 2)`: the code generator prints a nested binary operand without parentheses
+                let right = match *assign.right {
+                    Expr::Bin(_) => Box::new(Expr::Paren(ParenExpr {
+                        span,
+                        expr: assign.right.clone(),
+                    })),
+                    _ => assign.right.clone(),
+                };
                 let binary = Expr::Bin(BinExpr {
                     span,
                     op: BinaryOp::Add,
                     left: left_expr.clone().into(),
-                    right: assign.right.clone(),
+                    right,
                 });
 
                 let result = BinaryAddTransform::to_dd_binary_expr(
